@@ -130,11 +130,25 @@ def run_groups(names, only=None, extra_flags=()):
         # split per harness.  With -j the per-harness output is printed in blocks
         blocks = {}
         cur = None
+        thread_h = {}
         for ln in out.split('\n'):
-            m = re.match(r'(Thread \d+: )?Checking harness ([\w:]+)', ln)
+            tm_ = re.match(r'Thread (\d+): ?(.*)$', ln)
+            if tm_:
+                th, rest = tm_.group(1), tm_.group(2)
+                m = re.match(r'Checking harness ([\w:]+)', rest)
+                if m:
+                    thread_h[th] = m.group(1).split('::')[-1]
+                    blocks.setdefault(thread_h[th], [])
+                cur = thread_h.get(th)
+                if cur:
+                    blocks[cur].append(rest)
+                continue
+            m = re.match(r'Checking harness ([\w:]+)', ln)
             if m:
-                cur = m.group(2).split('::')[-1]
+                cur = m.group(1).split('::')[-1]
                 blocks.setdefault(cur, [])
+            if re.match(r'(Manual Harness Summary|Complete - |\s+Compiling |\s+Finished )', ln):
+                cur = None
             if cur:
                 blocks[cur].append(ln)
         for h in hs:
